@@ -747,11 +747,7 @@ def c07(tier):
     # hash), the growth 16 -> 17 -> 18 -> 19 bits leaves two older generations pending at once, and sets / references /
     # dereferences reach keys that live only in the SECOND pending generation while the first is being migrated
     two = 0
-    # (thorough: the same seed twice as long.  A second seed - 398, 2 200 steps - was rejected by the specification at event
-    # 4 882 of 12 209, "ReadLatest violated" after a Set on a key of the counting column following a recovery; it could not be
-    # classified as a defect of parity-db or of the trace specification in the time left and is NOT part of any registered
-    # command: the recorded trace is kept in open/ for the next session, see DESIGN.md 15.6)
-    for j in range(1):
+    for j in range(2 if thorough else 1):
         record_and_validate(rep, [{"kind": "rc", "uniform": True, "collide": True, "deep": True}], 80, 3,
                             2200 if thorough else 1100, SEED * 397 + j, crash=2, label="c07g%d" % j, small=True, dumps=True)
         gens = set()
